@@ -108,6 +108,7 @@ func (fr *Frame) execInstr(in ssa.Instruction) {
 	case *ssa.MakeClosure:
 		v := &Val{t: intLit(int64(fr.eng.fnID(i.Fn.(*ssa.Function)))), sort: sInt, typ: i.Type(), clo: i, fn: i.Fn.(*ssa.Function), frame: fr}
 		fr.vals[i] = v
+		fr.closureCreated(i, v)
 	case *ssa.MakeInterface:
 		fr.vals[i] = fr.makeInterface(i)
 	case *ssa.MakeMap:
@@ -360,12 +361,19 @@ func (fr *Frame) convert(i *ssa.Convert) *Val {
 	}
 	// string <-> []byte etc.
 	fr.vc.abstracted(fmt.Sprintf("conversion %s -> %s (fresh value)", i.X.Type(), i.Type()))
-	v := fr.havocVal(i.Type(), "conv")
-	if v.sort == sSlc {
-		// a fresh array
+	if sortOf(i.Type()) == sSlc {
+		// a fresh array of unknown content
 		r := fr.newRef("convarr")
-		fr.vc.fact(eq(sArr(v.t), r))
-		fr.vc.fact(eq(sOff(v.t), "0"))
+		n := fr.vc.fresh("convlen", sInt)
+		fr.vc.fact(and(app("<=", "0", n), app("<=", n, "4611686018427387904")))
+		if fb, ok := from.(*types.Basic); ok && fb.Info()&types.IsString != 0 {
+			fr.vc.fact(eq(n, app("strlen", x.t)))
+		}
+		return &Val{t: mkSlc(r, "0", n, n), sort: sSlc, typ: i.Type()}
+	}
+	v := fr.havocVal(i.Type(), "conv")
+	if tb, ok := to.(*types.Basic); ok && tb.Info()&types.IsString != 0 && x.sort == sSlc {
+		fr.vc.fact(eq(app("strlen", v.t), sLen(x.t)))
 	}
 	return v
 }
